@@ -125,6 +125,7 @@ func (p *process) Spawn(
 	if options.LinkChild {
 		// method LinkPID is not allowed to be used in the initialization state,
 		// so we use linking manually.
+		lib.VerifPoint("proc.spawn.linked", pid)
 		p.node.targetManager.AddLink(p.pid, pid)
 	}
 	return pid, err
@@ -159,6 +160,7 @@ func (p *process) SpawnRegister(
 	if options.LinkChild {
 		// method LinkPID is not allowed to be used in the initialization state,
 		// so we use linking manually.
+		lib.VerifPoint("proc.spawn.linked", pid)
 		p.node.targetManager.AddLink(p.pid, pid)
 	}
 	return pid, err
@@ -1641,6 +1643,7 @@ func (p *process) Forward(
 // internal
 
 func (p *process) run() {
+	lib.VerifPoint("proc.run.wake", p.pid)
 	if atomic.CompareAndSwapInt32(
 		&p.state,
 		int32(gen.ProcessStateSleep),
@@ -1650,12 +1653,15 @@ func (p *process) run() {
 		return
 	}
 	go func() {
+		lib.VerifPoint("proc.run.enter", p.pid)
+		defer lib.VerifPoint("proc.run.exit", p.pid)
 		if lib.Recover() {
 			defer func() {
 				if rcv := recover(); rcv != nil {
 					pc, fn, line, _ := runtime.Caller(2)
 					p.log.Panic("process terminated - %#v at %s[%s:%d]",
 						rcv, runtime.FuncForPC(pc).Name(), fn, line)
+					lib.VerifPoint("proc.run.term.panic", p.pid)
 					old := atomic.SwapInt32(&p.state, int32(gen.ProcessStateTerminated))
 					if old == int32(gen.ProcessStateTerminated) {
 						return
@@ -1678,6 +1684,7 @@ func (p *process) run() {
 				p.log.Error("process terminated abnormally - %s", err)
 			}
 
+			lib.VerifPoint("proc.run.term.err", p.pid)
 			old := atomic.SwapInt32(&p.state, int32(gen.ProcessStateTerminated))
 			if old == int32(gen.ProcessStateTerminated) {
 				return
@@ -1692,12 +1699,14 @@ func (p *process) run() {
 		p.runningTime = p.runningTime + uint64(time.Now().UnixNano()-startTime)
 
 		// change running state to sleep
+		lib.VerifPoint("proc.run.tosleep", p.pid)
 		if atomic.CompareAndSwapInt32(
 			&p.state,
 			int32(gen.ProcessStateRunning),
 			int32(gen.ProcessStateSleep),
 		) == false {
 			// process has been killed (was in zombee state)
+			lib.VerifPoint("proc.run.term.kill", p.pid)
 			old := atomic.SwapInt32(&p.state, int32(gen.ProcessStateTerminated))
 			if old == int32(gen.ProcessStateTerminated) {
 				return
@@ -1707,6 +1716,7 @@ func (p *process) run() {
 			return
 		}
 		// check if something left in the inbox and try to handle it
+		lib.VerifPoint("proc.run.recheck", p.pid)
 		if p.mailbox.Main.Item() == nil {
 			if p.mailbox.System.Item() == nil {
 				if p.mailbox.Urgent.Item() == nil {
@@ -1718,6 +1728,7 @@ func (p *process) run() {
 			}
 		}
 		// we got a new messages. try to use this goroutine again
+		lib.VerifPoint("proc.run.reacquire", p.pid)
 		if atomic.CompareAndSwapInt32(
 			&p.state,
 			int32(gen.ProcessStateSleep),
